@@ -196,7 +196,7 @@ def rule_flag_default(ctx, r, func_key, flag, why):
     idx = ctx.index
     fn = idx.func(func_key)
     opt = None
-    for d in fn.node.decorator_list:
+    for d in ctx.index.expanded_decorators(fn):
         if isinstance(d, ast.Call) and idx.canon(d.func, fn.module) == "click.option":
             names = [a.value for a in d.args if isinstance(a, ast.Constant) and isinstance(a.value, str)]
             if flag in names:
@@ -230,7 +230,7 @@ def rule_targets_argument(ctx, r, func_key, what):
     fn = idx.func(func_key)
     con = f"{fn.module.relpath}::{fn.qual}::targets-argument"
     arg = None
-    for d in fn.node.decorator_list:
+    for d in ctx.index.expanded_decorators(fn):
         if isinstance(d, ast.Call) and idx.canon(d.func, fn.module) == "click.argument":
             names = [a.value for a in d.args if isinstance(a, ast.Constant) and isinstance(a.value, str)]
             if names and names[0] in fn.positional_params():
@@ -386,7 +386,7 @@ def rule_option_declaration(ctx, r, func_key, flag, want, why):
     idx = ctx.index
     fn = idx.func(func_key)
     opt = None
-    for d in fn.node.decorator_list:
+    for d in ctx.index.expanded_decorators(fn):
         if isinstance(d, ast.Call) and idx.canon(d.func, fn.module) == "click.option":
             names = [a.value for a in d.args if isinstance(a, ast.Constant) and isinstance(a.value, str)]
             if flag in names:
